@@ -90,6 +90,11 @@ def gen_case(rng, tier, diff=False):
     for b, s in enumerate(states):
         if s in (1, 2, 3) and rng.chance(0.3):
             blocks[b][1] = rng.randrange(1, 1000)      # stale offsets on non-present states must be ignored
+    if rng.chance(0.2):
+        # the BAT region behind the payload blocks (a table moved to the end of the file when the disk grew): regions and
+        # blocks may lie in any order
+        bat_off = top * MB
+        top += bat_mb
     c = {"size": size, "block_size": bs, "sector_size": ss, "blocks": blocks, "bat_offset": bat_off,
          "file_size": top * MB, "place": place, "mode": mode, "inter": inter, "salt": rng.randrange(1 << 30),
          "kind": "nodiff", "header_seq": rng.pick([[5, 7], [9, 3], [4, 4]])}
